@@ -62,13 +62,14 @@ PROPS["C03"]["groups"] += [
 ]
 
 PROPS["C18"] = {
-    "bounds": "tables with 1..3 entries per list (routes, blacklist, rewriters, aggregations), histories of 1..2 admin operations with free index/key (incl. unknown key, index beyond the end); routes with 1..3 destinations; a consistent-hashing route with 2 destinations (real ring, 100 replicas), 1..2 changes, held ring compared entry by entry; one destination change carrying any subset of {addr, prefix, sub, regex}; delDest / modDest / modRoute addressed through the table by route key (two real routes with two destinations each; key incl. unknown, index incl. beyond the end); concurrent runs: one dispatcher against an admin goroutine making two changes (add rewriter / blacklist entry, delete route), and two admin goroutines making one change each (4x4 operation pairs), every interleaving with at most 2 (thorough 4) preemptions at lock / atomic / channel operations",
+    "bounds": "tables with 1..3 entries per list (routes, blacklist, rewriters, aggregations), histories of 1..2 admin operations with free index/key (incl. unknown key, index beyond the end); routes with 1..3 destinations; a consistent-hashing route with 2 destinations (real ring, 100 replicas), 1..2 changes, held ring compared entry by entry; one destination change carrying any subset of {addr, prefix, sub, regex}; one route filter change carrying two options: refused as a whole when one option is bad (either visiting order), and a concurrent Match during an accepted one sees the old or the new filter (at most 2 preemptions); delDest / modDest / modRoute addressed through the table by route key (two real routes with two destinations each; key incl. unknown, index incl. beyond the end); concurrent runs: one dispatcher against an admin goroutine making two changes (add rewriter / blacklist entry, delete route), and two admin goroutines making one change each (4x4 operation pairs), every interleaving with at most 2 (thorough 4) preemptions at lock / atomic / channel operations",
     "outside": "interleavings beyond the preemption bound or at plain memory accesses, and memory-model effects: beyond the bound the property is reduced to snapshot immutability + single snapshot load per dispatch + model-list equality (DESIGN.md C18)",
     "assumptions": ["copy-on-write reduction: if a published snapshot is never modified and each dispatch loads exactly one snapshot, any interleaving equals the change happening before or after the dispatch"],
     "groups": [
         {"pkg": "table", "hdir": "table", "specs": [spec("C18/table", "VerifC18Table"), spec("C18/readers", "VerifC18Readers"), spec("C18/table/route-ops-by-key", "VerifC18TableRouteOps"), spec("C18/table/n<=4,ops<=2", "VerifC18Table", {"maxn": "4"}, tier="thorough"), spec("C18/table/n<=2,ops<=3", "VerifC18Table", {"maxn": "2", "maxops": "3"}, tier="thorough")]},
         {"pkg": "route", "hdir": "route", "specs": [spec("C18/route", "VerifC18Route"), spec("C18/hash-route", "VerifC18HashRoute")]},
         {"pkg": "destination", "hdir": "destination", "specs": [spec("C18/destination-update/all-option-subsets", "VerifC18DestUpdate")]},
+        {"pkg": "route", "hdir": "route", "native_optional": True, "specs": [spec("C18/route/update-is-one-change/preemptions<=2", "VerifC18RouteUpdateAtomic", {"preemptions": "2"})]},
         # interleavings as decision variables (bounded preemption at lock / atomic / channel operations)
         {"pkg": "table", "hdir": "table", "native_optional": True, "specs": [
             spec("C18/concurrent/dispatch-vs-addRewriter+delRoute/preemptions<=2", "VerifC18Concurrent", {"kind": "rewriter", "preemptions": "2"}),
